@@ -16,7 +16,10 @@ from mc import oracle as O
 
 PROPERTY = "C03"
 
+# "*_edd": the same emitter writing 'Defaults to ...' into the docstring (what `gen` does by default): default in the prose, type only in the code
 HOPS = ["class", "pydantic", "function", "argparse", "docstring"]
+# taken as the first hop only and not expanded (as full members of the alphabet they multiply the state space by eight)
+FIRST_HOPS_ONLY = ["function_edd", "class_edd"]
 RULES = dict(absent_default_is_none=True, ignore_doc=True, ignore_returns=True)
 
 TYPES = ["int", "float", "str", "bool", "Optional[int]", "Optional[float]", "Optional[str]", "Optional[bool]", "Literal['a', 'b']", "Literal['a', 'b', 'c']"]
@@ -48,6 +51,8 @@ def worker_init(tier, seed):
 def do_hop(fmt, ir):
     if fmt == "docstring":
         return F.hop("docstring", ir, "rest", True)
+    if fmt.endswith("_edd"):
+        return F.hop(fmt[:-4], ir, "rest", True)
     return F.hop(fmt, ir, "rest", False)
 
 
@@ -78,7 +83,7 @@ def run(case):
         if len(path) >= depth_bound:
             closed = False
             continue
-        for fmt in HOPS:
+        for fmt in HOPS + (FIRST_HOPS_ONLY if not path else []):
             transitions += 1
             newpath = path + [fmt]
             ctx = dict(check="chain_hop", last_hop=fmt, from_initial=not path)
@@ -113,6 +118,8 @@ def run(case):
                 through_loss = True
             else:
                 through_loss = False
+            if fmt in FIRST_HOPS_ONLY:
+                continue
             k = (O.canon_ir(back), internal_digest(back))
             interfaces.add(O.canon_ir(back, with_doc=False))
             if k not in seen:
